@@ -66,9 +66,13 @@ func TestVerif_C09_budgetedge(t *testing.T) {
 					if rest < 203+40 {
 						f = rest
 					}
-					if f >= 131 {
+					switch {
+					case f == 130:
+						// no single field is 130 bytes long (2 + 127 = 129, 3 + 128 = 131: the length prefix grows): two fields
+						lens = append(lens, 60-2, 70-2)
+					case f >= 131:
 						lens = append(lens, f-3)
-					} else {
+					default:
 						lens = append(lens, f-2)
 					}
 					rest -= f
